@@ -7,7 +7,7 @@ import tempfile
 import zlib
 
 from engine import SPEC, gen_states, pool_map
-from readers import bgzf_blocks, join_lines, load_pickle, read_text, run_cli, split_tag, write_text
+from readers import bgzf_blocks, join_lines, load_pickle, read_text, run_cli, split_tag, write_text, workdir
 
 GRAPHS = {"a": json.load(open(os.path.join(SPEC, "data", "sort_graph.json"))), "b": json.load(open(os.path.join(SPEC, "data", "sort_graph_b.json")))}
 GRAPH = GRAPHS["a"]      # node ids and lengths are the same in both taggings
@@ -72,7 +72,7 @@ def run_sort_case(job):
     import readers as _rd
 
     _rd.CASE = str(cid)
-    d = tempfile.mkdtemp(prefix="sort_")
+    d = workdir("sort_", cid)
     try:
         gfa = os.path.join(d, "g.gfa")
         write_text(gfa, gfa_text(variant))
